@@ -14,6 +14,21 @@ Theorem encode_decode : forall i bs rest,
 Proof. exact encode_decode_thm. Qed.
 Print Assumptions encode_decode.
 
+(* The var-u32 reader (get_var_u32!, shift accumulating by 7) inverts push_var_u32 for every u32, and so does
+   get_var_u32_with_first_byte! when the first byte has already been read *)
+Theorem varint_roundtrip : forall v rest used,
+    v < 2 ^ 32 ->
+    get_var (enc_var v ++ rest) used = VOk v rest (used + N.of_nat (length (enc_var v))).
+Proof. exact get_var_enc. Qed.
+Print Assumptions varint_roundtrip.
+
+Theorem varint_first_byte_roundtrip : forall v rest used,
+    v < 2 ^ 32 ->
+    get_var_first (hd 0 (enc_var v)) (tl (enc_var v) ++ rest) used =
+    VOk v rest (used + N.of_nat (length (tl (enc_var v)))).
+Proof. exact get_var_first_enc'. Qed.
+Print Assumptions varint_first_byte_roundtrip.
+
 (* ... and every well-formed instruction has an encoding (the statement above is not vacuous) *)
 Theorem encode_total : forall i, wf_instr i = true -> exists bs, encode i = Some bs.
 Proof. exact DecodeProofs.encode_total. Qed.
